@@ -8,6 +8,7 @@
    implementation by the exact-arithmetic balance monitor (partial). *)
 From Coq Require Import QArith Qminmax List Bool Arith.
 From WSI Require Import Vqip Pow Tank Arc QTank Distrib Run TankLaws ArcLaws QTankLaws QueueLaws DistribLaws.
+From WSI Require Net NetLaws.
 Import ListNotations.
 Open Scope Q_scope.
 
@@ -61,3 +62,32 @@ Theorem C01_plain_arc_record_is_transfer : forall S P (K : contract S P) a s v,
   a_fin a' == a_fin a + (vol v - vol r) /\ a_cap a' = a_cap a.
 Proof. exact a_push_spec. Qed.
 Print Assumptions C01_plain_arc_record_is_transfer.
+
+(* ---- the composition: whole networks (coq/Net.v, NetLaws.v), water ----
+   For EVERY network of junctions, stores, rivers, outlets and catchments over plain arcs - any
+   topology incl. confluences, divergences and cycles, any capacities, preferences, iteration limit
+   and recursion depth - whose wiring is well-formed, every orchestration call that returns
+   (discharge of a store / river / groundwater store, abstraction, catchment routing) leaves
+     balance n = recorded inflow of n's in-arcs - recorded outflow of n's out-arcs - water stored in n
+   of EVERY interior node n unchanged: what the stores of a node gained is what its arcs brought
+   minus what its arcs took, for all nodes of the network at once; so for every sequence of calls. *)
+Theorem C01_network_every_node_balances_after_every_call : forall maxiter fuel s o s',
+  NetLaws.wf s -> Net.orch maxiter fuel s o = Some s' ->
+  NetLaws.shape s' = NetLaws.shape s /\
+  forall k, NetLaws.interior s k -> (match o with Net.ORoute m => k <> m | _ => True end) ->
+            NetLaws.balance s' k == NetLaws.balance s k.
+Proof. exact NetLaws.orch_balanced. Qed.
+Print Assumptions C01_network_every_node_balances_after_every_call.
+
+Theorem C01_network_every_node_balances_over_a_run : forall maxiter fuel os s s',
+  NetLaws.wf s -> NetLaws.orch_all maxiter fuel s os = Some s' ->
+  NetLaws.shape s' = NetLaws.shape s /\
+  forall k, NetLaws.interior s k -> (forall m, In (Net.ORoute m) os -> k <> m) ->
+            NetLaws.balance s' k == NetLaws.balance s k.
+Proof. exact NetLaws.run_balanced. Qed.
+Print Assumptions C01_network_every_node_balances_over_a_run.
+
+(* the hypothesis is decidable and is evaluated on every network the correspondence builds *)
+Theorem C01_network_wiring_check_is_sound : forall s, Net.net_wfb s = true -> NetLaws.wf s.
+Proof. exact NetLaws.net_wfb_sound. Qed.
+Print Assumptions C01_network_wiring_check_is_sound.
